@@ -103,6 +103,11 @@ type SchedSpec struct {
 	SlowMethod string        `json:"slow_method,omitempty"`
 	SlowProb   float64       `json:"slow_prob,omitempty"`
 	SlowMax    time.Duration `json:"slow_max,omitempty"`
+	// SlowScoped: only the handlers at the node of a fired at-start trigger are slow, for a few seconds from that
+	// moment (the presets slow down one change at one node; slow handlers of every join while the ring forms queue up
+	// behind each other on one node and answer after their callers' deadlines - the fault C07 enumerates, in profiles
+	// whose premise is that requests are answered in time)
+	SlowScoped bool `json:"slow_scoped,omitempty"`
 }
 
 type Plan struct {
@@ -424,6 +429,7 @@ func GenPlan(prop string, seed uint64, tier string) *Plan {
 		// leave in the middle of it, and its successor changes at the same time (so that its periodic tasks
 		// have something to write)
 		p.Sched.SlowMethod, p.Sched.SlowProb, p.Sched.SlowMax = "RequestToJoin", pick(r, 0.6, 0.9), pick(r, time.Second, 2*time.Second)
+		p.Sched.SlowScoped = true
 		p.Triggers = append(p.Triggers,
 			Trigger{OnMethod: "RequestToJoin", Serving: true, MinMembers: 3, Target: "callee", Kind: "leave", AtStart: true, Delay: time.Duration(r.Int63n(int64(time.Second)))},
 			Trigger{OnMethod: "RequestToJoin", Serving: true, MinMembers: 3, Target: "succ-of-callee", Kind: pick(r, "leave", "join-before"), AtStart: true, Delay: time.Duration(r.Int63n(int64(500 * time.Millisecond))), Spare: 1 + r.Uint64()%1000})
